@@ -260,8 +260,18 @@ def run_fat12_scan_bound(ctx, rep):
         rep.machinery('ANCHOR-MISSING Fat12::find_free')
         return
     d = Deps(fn)
-    end_param = next((i for i in range(1, fn.argc + 1) if (fn.locals[i].get('name') or '') == 'end_cluster'), 3)
-    # the scanned local: compared with the bound parameter
+    # the scanned local: a named local stepped by one; the bound test compares it with something that derives from a parameter
+    # other than the table (the end of the scan, passed as a number or as the end of a range) and not from the local itself
+    def rv_toks(rv):
+        return d.of_operand(rv['a']) if rv['k'] == 'use' else d.of_operand(rv['a']) | d.of_operand(rv['b'])
+    stepped = {}
+    for bi in fn.reachable():
+        for s in fn.blocks[bi]['stmts']:
+            if s['k'] == 'assign' and not s['lhs']['p'] and s['rv']['k'] in ('use', 'binop') and \
+                    (fn.locals[s['lhs']['l']].get('name') or ''):
+                toks = rv_toks(s['rv'])
+                if ('op', 'Add') in toks and ('const', 1) in toks and ('local', s['lhs']['l']) in toks:
+                    stepped.setdefault(s['lhs']['l'], set()).add(bi)
     bound_blocks, scanned = set(), set()
     for bi in fn.reachable():
         t = fn.blocks[bi]['term']
@@ -270,17 +280,15 @@ def run_fat12_scan_bound(ctx, rep):
         src = switch_source(fn, bi)
         if src and src['kind'] == 'binop' and src['op'] in ('Eq', 'Ne', 'Lt', 'Le', 'Gt', 'Ge'):
             ta, tb = d.of_operand(src['a']), d.of_operand(src['b'])
-            for x, tx, ty in ((src['a'], ta, tb), (src['b'], tb, ta)):
-                if ('param', end_param) in ty and ('param', end_param) not in tx:
-                    bound_blocks.add(bi)
-                    scanned |= {tk[1] for tk in tx if tk[0] == 'local' and (fn.locals[tk[1]].get('name') or '')}
+            for tx, ty in ((ta, tb), (tb, ta)):
+                for l in stepped:
+                    if ('local', l) in tx and ('local', l) not in ty and any(tk[0] == 'param' and tk[1] >= 2 for tk in ty) \
+                            and not any(tk[0] == 'callsite' for tk in ty):
+                        bound_blocks.add(bi)
+                        scanned.add(l)
     incs = set()
-    for bi in fn.reachable():
-        for s in fn.blocks[bi]['stmts']:
-            if s['k'] == 'assign' and not s['lhs']['p'] and s['lhs']['l'] in scanned and s['rv']['k'] in ('use', 'binop'):
-                toks = d.of_operand(s['rv']['a']) if s['rv']['k'] == 'use' else d.of_operand(s['rv']['a']) | d.of_operand(s['rv']['b'])
-                if ('op', 'Add') in toks and ('const', 1) in toks:
-                    incs.add(bi)
+    for l in scanned:
+        incs |= stepped[l]
     loops = fn.loops()
     in_loop = set()
     for body in loops.values():
